@@ -227,6 +227,9 @@ pub struct Mvm {
     pub consensus_fault: RefCell<Option<ConsensusFault>>,
     pub panics: RefCell<Vec<PanicRecord>>,
     pub keep_invs: Cell<bool>,
+    /// behave like the repo's TestVM, whose emit_event ignores the read-only flag (the FVM kernel
+    /// refuses events in read-only mode): with the backstop off, only the actor's own guard decides
+    pub lenient_read_only_events: Cell<bool>,
     pub deleted: RefCell<Vec<(ActorID, ChainEpoch)>>,
 }
 
@@ -262,6 +265,7 @@ impl Mvm {
             consensus_fault: RefCell::new(None),
             panics: RefCell::new(vec![]),
             keep_invs: Cell::new(true),
+            lenient_read_only_events: Cell::new(false),
             deleted: RefCell::new(vec![]),
         }
     }
@@ -1285,7 +1289,7 @@ impl Runtime for InvocationCtx<'_> {
     }
 
     fn emit_event(&self, event: &ActorEvent) -> Result<(), ActorError> {
-        if self.read_only {
+        if self.read_only && !self.v.lenient_read_only_events.get() {
             // the FVM kernel refuses events in read-only mode
             return Err(ActorError::unchecked(
                 ExitCode::USR_READ_ONLY,
